@@ -56,3 +56,14 @@ Proof.
   cbn. unfold bind. destruct (across_scope f c) as [c'|] eqn:E; [|discriminate].
   intros [= <-]. now exists c'.
 Qed.
+
+(* ---- a text without a straight quote character is left exactly as it is ---- *)
+From Proofs Require Import TypoProofs.
+From Model Require Import Typography.
+Lemma pw_no_quotes s t : pw s t -> (forall c, In c s -> c <> apos /\ c <> dquote) -> t = s.
+Proof.
+  unfold pw. induction 1 as [|a b s t Hq _ IH]; intros N; [reflexivity|].
+  destruct (N a (or_introl eq_refl)) as [Na Nd]. apply N.eqb_neq in Na, Nd.
+  unfold qrel in Hq. rewrite Na, Nd in Hq. cbn [andb orb] in Hq. rewrite !orb_false_r in Hq.
+  apply N.eqb_eq in Hq. subst b. f_equal. apply IH. intros c Hc. apply N. now right.
+Qed.
